@@ -46,6 +46,25 @@ func buildIntrinsics() map[string]Intrinsic {
 	m[hp+"verifAssert"] = inAssert
 	m[hp+"verifCover"] = inCover
 	m[hp+"verifKnown"] = inKnown
+	m[hp+"verifSliceLen"] = func(e *Exec, st *State, ci *CallInfo) Outcome {
+		sl, ok := ci.Args[0].(*Iface).V.(*SliceV)
+		if !ok {
+			unsupportedf("sort.Slice of a non-slice")
+		}
+		if sl.Len >= 12 {
+			unsupportedf("sort.Slice of 12 or more elements (the order of equal elements is unspecified)")
+		}
+		return val(e.i64(sl.Len))
+	}
+	m[hp+"verifSliceSwap"] = func(e *Exec, st *State, ci *CallInfo) Outcome {
+		sl := ci.Args[0].(*Iface).V.(*SliceV)
+		i, j := constInt(ci.Args[1], "swap index"), constInt(ci.Args[2], "swap index")
+		pi, pj := sl.Arr.sub(sl.Off+i), sl.Arr.sub(sl.Off+j)
+		vi, vj := st.load(pi), st.load(pj)
+		st.store(pi, vj)
+		st.store(pj, vi)
+		return val(nil)
+	}
 	m[hp+"verifUnspecified"] = func(e *Exec, st *State, ci *CallInfo) Outcome {
 		e.endPath(st, EndUnspecified)
 		return handled
